@@ -12,6 +12,8 @@
      <id> S <content> <nops> (r <n> | s <off> <0|1|2> | c)*
    Request-grammar case (the formal [allowed] against the harness's endpoint table):
      <id> A <METHOD> <repo> <epkind> <arg> <digest> <mountd> <from> <ctype> <clen> <ra> <rb> <body>
+   Upload location case (Model/Location.v):
+     <id> U <scheme> <host> <port> <Location header> <digest>     -> url:<PUT url> | UNJUDGED
    All strings hex encoded, "-" = empty. *)
 
 let z_of_int (i : int) : z =
@@ -216,5 +218,9 @@ let () =
        with Unjudged -> Printf.printf "%s UNJUDGED\n" id)
     | id :: "S" :: rest -> Printf.printf "%s %s\n" id (seek rest)
     | id :: "A" :: rest -> Printf.printf "%s %s\n" id (grammar rest)
+    | [id; "U"; sch; host; port; loc; dg] ->
+      (match put_url_str (str_of_hex sch) (str_of_hex host) (str_of_hex port) (str_of_hex loc) (str_of_hex dg) with
+       | Some u -> Printf.printf "%s url:%s\n" id (hex_of_str u)
+       | None -> Printf.printf "%s UNJUDGED\n" id)
     | [] -> ()
     | _ -> Printf.printf "BADLINE %s\n" l)
